@@ -5,51 +5,81 @@
 (*   enum      the order the substituted os.listdir handed out            -> ListDir        *)
 (*   touches   names of the children whose own path was stat()ed/opened, in order           *)
 (*   response  status (ok | notfound | error | none | hang) and the lexed listing           *)
+(*   fetch     what an exact-selector request (same protocol form) for a child that the     *)
+(*             listing omits returned: served | refused | none                              *)
+(*   end       end of the history                                                           *)
 (* Property level (VIOLATION), clause Robust of Dir:                                        *)
 (*   Robust.Answered       the response is a success listing                                *)
-(*   Robust.HealthyListed  every healthy visible child is listed                            *)
+(*   Robust.HealthyListed  every healthy visible child is listed - healthy judged on the    *)
+(*                         implementation: an omitted child that the model's pinned filter  *)
+(*                         calls healthy is a violation iff the server SERVES it by exact   *)
+(*                         selector; if the server refuses it, it is unservable under the   *)
+(*                         code's own rules and may be omitted (DRIFT: filter differs)      *)
 (*   Robust.OnlyVisible    nothing but visible children of the directory is listed          *)
 (* Design level (DRIFT, only when the property holds): the children are inspected in the    *)
 (* order the pipeline model predicts and the listing is exactly Pipeline(d, order).         *)
 EXTENDS Dir, MC_C07_data, TraceBase
 
-VARIABLES tid, l, verdict, pred, seen
-tvars == <<dvars, tid, l, verdict, pred, seen>>
+VARIABLES tid, l, verdict, pred, seen, pending
+tvars == <<dvars, tid, l, verdict, pred, seen, pending>>
 
 Ev == Traces[tid].events
 DirOf(i) == [sb |-> i.sb, handler |-> i.handler, ign |-> i.ign, sniff |-> i.sniff, kids |-> Range(i.kids)]
 
-TInit == /\ tid \in 1..NTraces /\ l = 1 /\ verdict = "ok" /\ pred = NoExpect /\ seen = <<>>
+TInit == /\ tid \in 1..NTraces /\ l = 1 /\ verdict = "ok" /\ pred = NoExpect /\ seen = <<>> /\ pending = {}
          /\ DirInit(DirOf(Traces[tid].init.d))
 
-Known == {"enum", "touches", "response"}
+Known == {"enum", "touches", "response", "fetch", "end"}
 
 Enum(e) ==
     IF pc = "start" /\ IsEnumOf(d, e.order)
-    THEN ListDir(e.order) /\ pred' = Expect(d, e.order) /\ verdict' = "ok" /\ UNCHANGED seen
-    ELSE UNCHANGED <<dvars, pred, seen>> /\ verdict' = "unmatched"
+    THEN ListDir(e.order) /\ pred' = Expect(d, e.order) /\ verdict' = "ok" /\ UNCHANGED <<seen, pending>>
+    ELSE UNCHANGED <<dvars, pred, seen, pending>> /\ verdict' = "unmatched"
 
-Touches(e) == UNCHANGED <<dvars, pred>> /\ seen' = e.names /\ verdict' = "ok"
+Touches(e) == UNCHANGED <<dvars, pred, pending>> /\ seen' = e.names /\ verdict' = "ok"
 
+\* Robust.HealthyListed is judged on the implementation itself: a child the model calls healthy (pinned filter) that
+\* the listing omits stays PENDING until the trace shows what an exact-selector request for it returned
 Response(e) ==
-    LET obs == [kind |-> e.status, listing |-> e.listing]
-        mdl == Pipeline(d, raw)
-        v   == RobustClause(d, obs)
+    LET obs     == [kind |-> e.status, listing |-> e.listing]
+        mdl     == Pipeline(d, raw)
+        v       == IF obs.kind # "ok" THEN "Robust.Answered"
+                   ELSE IF ~(ListedNames(d, obs.listing) \subseteq Visible(d)) THEN "Robust.OnlyVisible"
+                   ELSE "ok"
+        missing == IF obs.kind = "ok" THEN Healthy(d) \ ListedNames(d, obs.listing) ELSE {}
     IN /\ p' = [p EXCEPT !.out = mdl] /\ pc' = "done" /\ UNCHANGED <<d, raw, j, pred, seen>>
+       /\ pending' = missing
        /\ verdict' = IF pc = "done" THEN "unmatched" ELSE v
-       /\ (IF v # "ok" \/ obs \in pred.outs THEN TRUE
+       /\ (IF v # "ok" \/ missing # {} \/ obs \in pred.outs THEN TRUE
            ELSE RecordDrift(tid, l, "listing differs from the pipeline model"))
        /\ (IF v # "ok" \/ seen \in pred.touches THEN TRUE
            ELSE RecordDrift(tid, l, "children inspected in another order than the model predicts"))
+
+\* what the server answered when the omitted child was requested by its exact selector (same protocol form)
+Fetch(e) ==
+    /\ UNCHANGED <<dvars, pred, seen>>
+    /\ IF pc # "done" THEN verdict' = "unmatched" /\ UNCHANGED pending
+       ELSE IF e.name \notin pending THEN verdict' = "ok" /\ UNCHANGED pending
+       ELSE IF e.got = "refused"
+       THEN /\ verdict' = "ok" /\ pending' = pending \ {e.name}      \* unservable under the code's own rules: may be omitted
+            /\ RecordDrift(tid, l, "omitted child is healthy by the model's pinned filter but the server refuses it by exact selector")
+       ELSE verdict' = "Robust.HealthyListed" /\ UNCHANGED pending     \* the server serves it, yet the listing dropped it
+
+End(e) ==
+    /\ UNCHANGED <<dvars, pred, seen, pending>>
+    /\ verdict' = IF pc # "done" THEN "unmatched"
+                  ELSE IF pending # {} THEN "Robust.HealthyListed.NotProbed" ELSE "ok"
 
 Consume ==
     /\ l <= Len(Ev) /\ verdict = "ok"
     /\ l' = l + 1 /\ UNCHANGED tid
     /\ LET e == Ev[l] IN
-       IF e.ev \notin Known THEN UNCHANGED <<dvars, pred, seen>> /\ verdict' = "unmatched"
+       IF e.ev \notin Known THEN UNCHANGED <<dvars, pred, seen, pending>> /\ verdict' = "unmatched"
        ELSE CASE e.ev = "enum" -> Enum(e)
               [] e.ev = "touches" -> Touches(e)
               [] e.ev = "response" -> Response(e)
+              [] e.ev = "fetch" -> Fetch(e)
+              [] e.ev = "end" -> End(e)
 
 TSpec == TInit /\ [][Consume]_tvars
 Record == RecordVerdict(tid, l, verdict, Len(Ev))
